@@ -57,6 +57,9 @@ pub struct Project {
     pub schema_format: String,
     #[serde(default)]
     pub flags: FlagOverrides,
+    /// files written with CRLF line endings: bit i = operation file i, bit 32+j = schema file j
+    #[serde(default)]
+    pub crlf: u64,
 }
 
 #[derive(Clone, Debug, Default)]
@@ -77,6 +80,8 @@ pub struct ProjectOpts {
     pub introspection_pct: u32,
     /// x/100 of the projects pass part of (or all of) their configuration as CLI flags
     pub flag_overrides_pct: u32,
+    /// projects without any config file are allowed (the class does not need the config text)
+    pub no_config_ok: bool,
 }
 
 pub const SANDBOX: &str = "/nvw";
@@ -136,11 +141,12 @@ impl Project {
         if !self.flags.no_config {
             v.push((self.config_path(), self.config_text()));
         }
+        let eol = |crlf: bool, t: String| if crlf { t.replace('\n', "\r\n") } else { t };
         for i in 0..self.schema_paths.len() {
-            v.push((self.schema_abs(i), self.schema_text(i)));
+            v.push((self.schema_abs(i), eol(self.crlf >> (32 + i) & 1 == 1 && !self.introspection(), self.schema_text(i))));
         }
         for (i, f) in self.ops.iter().enumerate() {
-            v.push((self.op_abs(i), wgen::render_op_file(f)));
+            v.push((self.op_abs(i), eol(self.crlf >> i & 1 == 1, wgen::render_op_file(f))));
         }
         for (p, t) in &self.extra_files {
             v.push((self.abs(p), t.clone()));
@@ -321,6 +327,7 @@ pub fn gen_project(rng: &mut Rng, o: &ProjectOpts) -> Project {
     let has_custom_scalars = schema.types.iter().any(|t| t.kind == Kind::Scalar);
     // without a config file the TypeScript types of custom scalars can only come from the SDL
     let flag_choice = if flag_choice == Some(0) && introspection && has_custom_scalars { Some(4) } else { flag_choice };
+    let flag_choice = if flag_choice == Some(0) && !o.no_config_ok { Some(3) } else { flag_choice };
     let no_config = flag_choice == Some(0);
     schema.ts_type_directives = !introspection && (no_config || rng.fork("ts_type_directives").chance(1, 4));
     let scalar_types_in_config = !no_config && !(schema.ts_type_directives && rng.fork("ts_type_only").chance(1, 2));
@@ -406,6 +413,8 @@ pub fn gen_project(rng: &mut Rng, o: &ProjectOpts) -> Project {
     let out_dir: &str = *r_cfg.pick(&[
         "generated", "src/generated", "out/deep/er", ".", "../gen-out", "src", "out/a", "gen/a/b", "out/c",
         src_upper.as_str(), src_upper_gen.as_str(), schema_case_gen.as_str(),
+        // hidden directories (outputs only: the glob library does not descend into them)
+        ".nitrogql", ".cache/gql/types",
     ]);
     let out_dir = if out_dir == "../gen-out" && depth == 0 { "gen-out" } else { out_dir };
     let sch_name = *r_cfg.pick(&[
@@ -542,7 +551,11 @@ pub fn gen_project(rng: &mut Rng, o: &ProjectOpts) -> Project {
         }
         flags.decoy = r_flags.chance(1, 2);
     }
+    // line endings: one project in six was (partly) edited on Windows
+    let mut r_eol = rng.fork("eol");
+    let crlf: u64 = if r_eol.chance(1, 6) { if r_eol.chance(1, 2) { u64::MAX } else { r_eol.next_u64() } } else { 0 };
     Project {
+        crlf,
         flags,
         schema,
         ops,
